@@ -44,7 +44,7 @@ theorem mdMeta_scan (fmt : Value → Str) (m : List (Str × Value)) :
     have : m = [] := by simpa using he
     simp [this, mdScan]
   · have hb := mdBullets_scan fmt [M] m
-    simp [mdScan, mdScan_append, hb.1, hb.2, mdLeaf, List.map_map, Function.comp_def]
+    simp [mdScan, mdScan_append, hb.1, mdLeaf, List.map_map, Function.comp_def]
 
 /-- Under the guards the markdown scan finds exactly the document's leaves, each with its formatted value. -/
 theorem mdLeaves_eq (fmt : Value → Str) (d : Doc) (hs : noSections d = true) (ho : mdOrdered d = true) :
